@@ -1095,6 +1095,7 @@ class Server:
         self.service_records = {}  # Service records maps, by record handle
         self.channel = None
         self.current_response = None  # Current response data, used for continuations
+        self.channel_responses = {}  # Continuation state of each connected client
 
     def register(self, l2cap_channel_manager: l2cap.ChannelManager) -> None:
         l2cap_channel_manager.create_classic_server(
@@ -1122,8 +1123,22 @@ class Server:
         return matching_services
 
     def on_connection(self, channel):
+        # Each client has its own channel and its own continuation state
         self.channel = channel
-        self.channel.sink = self.on_pdu
+        channel.sink = lambda pdu: self.on_channel_pdu(channel, pdu)
+        channel.once(
+            channel.EVENT_CLOSE, lambda: self.channel_responses.pop(channel, None)
+        )
+
+    def on_channel_pdu(self, channel, pdu):
+        # Requests are processed synchronously, one at a time: serve this request with
+        # the channel and the continuation state of the client that sent it.
+        self.channel = channel
+        self.current_response = self.channel_responses.get(channel)
+        try:
+            self.on_pdu(pdu)
+        finally:
+            self.channel_responses[channel] = self.current_response
 
     def on_pdu(self, pdu):
         try:
